@@ -1607,6 +1607,35 @@ fn main() {
             }
             println!("RESULT enum:zones {n} round trips over {} zones x {} instants keep instant, offset and zone name; names not accepted by the constructor and skipped: {skipped:?}", zones.len() - skipped.len(), instants.len());
         }
+        // ---- C19: Grid::make_from_dicts over seeded random record lists keeps the records as rows, in order, and has exactly one column per
+        //      distinct tag name, sorted; typed getters agree with the kind of the value
+        "enum:random-kinds-grid" => {
+            use libhaystack::val::{Dict, Grid, HaystackDict};
+            use randgen::*;
+            let seed: u64 = std::env::var("VERIF_SEED").ok().and_then(|s| s.parse().ok()).unwrap_or(0);
+            let count: usize = args.get(2).and_then(|s| s.parse().ok()).unwrap_or(400);
+            let mut rng = Rng::seeded(seed ^ 0x7171);
+            for i in 0..count {
+                let recs: Vec<Dict> = (0..rng.below(5)).map(|_| dict(&mut rng, 1, &IDS, &STRS, &UNITS, &ZONES)).collect();
+                let g = Grid::make_from_dicts(recs.clone());
+                let mut want: Vec<String> = recs.iter().flat_map(|r| r.keys().cloned()).collect(); want.sort(); want.dedup();
+                let got: Vec<String> = g.columns.iter().map(|c| c.name.clone()).collect();
+                if format!("{:?}", g.rows) != format!("{recs:?}") || got != want || g.columns.iter().any(|c| c.meta.is_some()) {
+                    println!("RESULT enum:random-kinds-grid seed={seed} #{i} records={recs:?}: grid rows={:?} columns={got:?}, expected the records as rows and the columns {want:?}", g.rows);
+                    std::process::exit(3);
+                }
+                for r in &recs { for (k, v) in r.iter() {
+                    let preds = [v.is_null(), v.is_marker(), v.is_remove(), v.is_na(), v.is_bool(), v.is_number(), v.is_str(), v.is_ref(), v.is_uri(), v.is_symbol(), v.is_date(), v.is_time(), v.is_datetime(), v.is_coord(), v.is_xstr(), v.is_list(), v.is_dict(), v.is_grid()];
+                    let getters = [r.get_str(k).is_some() == v.is_str(), r.get_num(k).is_some() == v.is_number(), r.get_ref(k).is_some() == v.is_ref(), r.get_bool(k).is_some() == v.is_bool(),
+                        r.get_list(k).is_some() == v.is_list(), r.get_dict(k).is_some() == v.is_dict(), r.get_grid(k).is_some() == v.is_grid(), r.has_marker(k) == v.is_marker()];
+                    if preds.iter().filter(|p| **p).count() != 1 || getters.iter().any(|x| !x) {
+                        println!("RESULT enum:random-kinds-grid seed={seed} #{i} tag {k}={v:?}: kind predicates {preds:?}, typed getters agree {getters:?}");
+                        std::process::exit(3);
+                    }
+                } }
+            }
+            println!("RESULT enum:random-kinds-grid seed={seed}: {count} random record lists: rows kept in order, one sorted column per distinct tag, one kind per value, typed getters agree");
+        }
         // ---- C09 enumerator (evaluation half): `id *== @ref` over resolvers whose refs form chains and cycles of several shapes must
         //      terminate with the right answer; a run that does not come back is reported as a hang by the caller's watchdog
         "enum:wildcard-cycles" => {
